@@ -32,9 +32,11 @@ COMPONENTS = {
 ASSUMPTIONS = ["in the 10% of runs with injected SQL errors a stored query may end early: its EOSE is then not "
                "required to be complete (every other clause is still judged)",
                "frames failing the shape gate (not an array, <2 elements, unknown verb) are dropped by "
-               "design and are not REQs", "events already queued for a subscription may still be sent "
-               "after its CLOSE was processed; what must not happen is delivery of events accepted after "
-               "that, or any delivery after the next quiescent point"]
+               "design and are not REQs", "'after CLOSE / after a REQ reusing the id' = once the relay has handled that "
+               "command: from then on at most ONE more frame of the old subscription goes out (the one the "
+               "sender task had already taken from the queue), nothing that was queued behind it, no event "
+               "accepted later, nothing after the next quiescent point; after a replacement every further frame "
+               "under the id matches the new REQ"]
 SHRINK = [["clients"], ["clients", "*", "script"]]
 
 BAD_FILTERS = [{"kinds": "x"}, {"ids": ["zz"]}, {"since": -5}, {"authors": [5]}, "str", 7, None, [], {"limit": -1},
@@ -144,12 +146,14 @@ def check_client(c, world, case, ev_times, ev_done, submissions, quiet_points, v
             by_id[m[1]].append(fr)
     eose_by_id = collections.defaultdict(list)
     event_by_id = collections.defaultdict(list)
+    frame_events = collections.defaultdict(list)
     notices = []
     for seq, m in tx:
         if m[0] == "EOSE" and len(m) > 1:
             eose_by_id[m[1] if isinstance(m[1], str) else repr(m[1])].append(seq)
         elif m[0] == "EVENT" and len(m) > 2 and isinstance(m[2], dict):
             event_by_id[m[1] if isinstance(m[1], str) else repr(m[1])].append((seq, m[2].get("id")))
+            frame_events[m[1] if isinstance(m[1], str) else repr(m[1])].append((seq, m[2]))
         elif m[0] == "NOTICE":
             notices.append(seq)
     floating_eose = sorted(s for k, v in eose_by_id.items() if k not in string_ids for s in v)
@@ -203,6 +207,14 @@ def check_client(c, world, case, ev_times, ev_done, submissions, quiet_points, v
                 end_t = e0["t_done"]
             if end_t is not None:
                 nxt_req = hi
+                late = [seq for seq, eid in event_by_id.get(sid, []) if end_t < seq < nxt_req]
+                if late:
+                    probes["event_frames_sent_after_close_handled"] += len(late)
+                if len(late) > 1:
+                    # the one frame the sender had already taken from the queue may still go out; what was
+                    # queued behind it for the closed subscription must not
+                    viol.append({"cls": "delivery-after-close", "sig": "delivery-after-close|%s|backlog" % backend,
+                                 "detail": {"sub": sid, "frames_after_close_was_handled": len(late)}})
                 for seq, eid in event_by_id.get(sid, []):
                     if end_t < seq < nxt_req:
                         t_sub = ev_times.get(eid)
@@ -225,6 +237,25 @@ def check_client(c, world, case, ev_times, ev_done, submissions, quiet_points, v
                                          "detail": {"sub": sid, "event": (eid or "")[:8],
                                                     "preloaded": t_sub is None}})
                             break
+    # what was queued for a replaced subscription is not sent under the id once the replacing REQ has been
+    # handled: from then on the frames carrying the id answer the new REQ and match its filters (one frame
+    # that the sender had already taken from the queue may still go out)
+    for sid, frs in by_id.items():
+        req_frs = [f for f in frs if f["msg"][0] == "REQ"]
+        for k in range(1, len(req_frs)):
+            fr = req_frs[k]
+            if fr["t_done"] is None:
+                continue
+            hi = req_frs[k + 1]["t_deliver"] if k + 1 < len(req_frs) else 10 ** 12
+            fl = [f for f in fr["msg"][2:] if isinstance(f, dict)]
+            alien = [E.get("id", "")[:8] for seq, E in frame_events.get(sid, [])
+                     if fr["t_done"] < seq < hi and model.wellformed(E)
+                     and not any(model.matches(E, f, "inclusive", bare_as_empty=True) for f in fl)]
+            if len(alien) > 1:
+                viol.append({"cls": "leftovers-of-replaced-subscription",
+                             "sig": "leftovers-of-replaced-subscription|%s" % backend,
+                             "detail": {"sub": sid, "current_req": fr["msg"][:4], "events": alien[:5]}})
+                break
     # a live push under an id must match the subscription that currently holds the id: an event
     # submitted after a REQ for that id had been fully handled may only be pushed if it matches a
     # filter of that REQ (a replaced subscription must not keep delivering under the id)
